@@ -158,8 +158,11 @@ void Format::formatDateTime( std::ostream& dest, const Field& field_def,
    char        timestamp_str[ 128];
 
 
-   ::strftime( timestamp_str, sizeof( timestamp_str) - 1, use_format_str,
-               ::localtime( &timestamp));
+   // strftime() returns 0 and leaves the contents of the buffer undefined if
+   // the result does not fit (the format string may be user defined)
+   if (::strftime( timestamp_str, sizeof( timestamp_str) - 1, use_format_str,
+                   ::localtime( &timestamp)) == 0)
+      timestamp_str[ 0] = '\0';
    append( dest, field_def, timestamp_str);
 
 } // Format::formatDateTime
